@@ -68,7 +68,9 @@ Inductive sevent :=
 | STimeout (sid : N).               (* udpCheckStreamTimer fires and the peer was silent *)
 
 Inductive outcome :=
-| OResp (status : N) (closes : bool)   (* exactly one response; then the connection is closed or not *)
+| OResp (status : N) (closes : bool) (adv : option N)
+                                       (* exactly one response; then the connection is closed or not;
+                                          adv = the session id carried by the response's Session header *)
 | OClosed                              (* no response, connection closed *)
 | OIgnored.                            (* nothing to answer (frame in TCP mode, accept, timer) *)
 
@@ -321,17 +323,25 @@ Definition reader_remove (s : server) (ss : session) : option server :=
                   (v_mwriters s) (v_rtp s) (v_rtcp s) (v_next s))
   end.
 
-(* stream.readerAdd: Some (inl s') = added, Some (inr tt) = refused (ports in use), None = panic *)
-Definition ports_conflict (s : server) (ss : session) (port : N) : bool :=
-  existsb (fun rid =>
-    match find_sess rid (v_sess s) with
-    | Some r =>
-        match s_tr r with
-        | Some (SPUDP, _) => (s_ip r =? s_ip ss) && existsb (fun m => m_rtp m =? port) (s_medias r)
-        | _ => false
-        end
-    | None => false
-    end) (v_readers s).
+(* stream.readerAdd: Some (inl s') = added, Some (inr tt) = refused (ports in use), None = panic.
+   The loop over st.readers dereferences r.setuppedTransport of every reader. *)
+Fixpoint ports_conflict (sl : list session) (ss : session) (port : N) (rs : list N) : option bool :=
+  match rs with
+  | [] => Some false
+  | rid :: t =>
+      match find_sess rid sl with
+      | None => ports_conflict sl ss port t
+      | Some r =>
+          match s_tr r with
+          | None => None                                     (* r.setuppedTransport.Protocol *)
+          | Some (SPUDP, _) =>
+              if (s_ip r =? s_ip ss) && existsb (fun m => m_rtp m =? port) (s_medias r)
+              then Some true
+              else ports_conflict sl ss port t
+          | Some _ => ports_conflict sl ss port t
+          end
+      end
+  end.
 
 Definition reader_add (s : server) (ss : session) (cports : option (N * N)) : option (server + unit) :=
   match s_tr ss with
@@ -340,9 +350,13 @@ Definition reader_add (s : server) (ss : session) (cports : option (N * N)) : op
       match cports with
       | None => None                                          (* clientPorts[0] *)
       | Some (p0, _) =>
-          if ports_conflict s ss p0 then Some (inr tt)
-          else Some (inl (mkSrv (v_conns s) (v_sess s) (nadd (s_id ss) (v_readers s)) (v_active s) (v_mcount s)
-                                (v_mwriters s) (v_rtp s) (v_rtcp s) (v_next s)))
+          match ports_conflict (v_sess s) ss p0 (v_readers s) with
+          | None => None
+          | Some true => Some (inr tt)
+          | Some false =>
+              Some (inl (mkSrv (v_conns s) (v_sess s) (nadd (s_id ss) (v_readers s)) (v_active s) (v_mcount s)
+                               (v_mwriters s) (v_rtp s) (v_rtcp s) (v_next s)))
+          end
       end
   | Some (SPMcast, _) =>
       Some (inl (mkSrv (v_conns s) (v_sess s) (nadd (s_id ss) (v_readers s)) (v_active s) (v_mcount s + 1)
@@ -653,7 +667,8 @@ Definition sess_inner (g : cfg) (s : server) (c : conn) (ss : session) (r : req)
 
 (* what a request step reports: the response, the error beside it and the session the connection is
    paired with afterwards *)
-Definition cres := option (server * N * rerr * option N).
+Definition cres := option (server * N * rerr * option N * option N).
+(* (state, status, error, session paired with the connection afterwards, advertised session id) *)
 
 (* ServerSession.runInner, case chHandleRequest *)
 Definition sess_request (g : cfg) (s : server) (c : conn) (ss0 : session) (r : req) : cres :=
@@ -668,10 +683,11 @@ Definition sess_request (g : cfg) (s : server) (c : conn) (ss0 : session) (r : r
             let ss2 := ss_with_conns ss1 (nremove (c_id c) (s_conns ss1)) in
             match end_session (set_sess s1 ss2) (s_id ss2) with
             | None => None
-            | Some s2 => Some (s2, st, e, None)
+            | Some s2 => Some (s2, st, e, None, None)
             end
-          else Some (set_sess s1 ss1, st, e, Some (s_id ss1))
-      | _ => Some (set_sess s1 ss1, st, e, Some (s_id ss1))
+          else Some (set_sess s1 ss1, st, e, Some (s_id ss1), None)
+      | MAnnounce => Some (set_sess s1 ss1, st, e, Some (s_id ss1), None)   (* no Session header *)
+      | _ => Some (set_sess s1 ss1, st, e, Some (s_id ss1), if ok then Some (s_id ss1) else None)
       end
   end.
 
@@ -681,7 +697,7 @@ Definition in_session (g : cfg) (s : server) (c : conn) (r : req) (create : bool
   | None =>
       match (match r_sess r with Some id => find_sess id (v_sess s) | None => None end) with
       | Some ss =>
-          if negb (c_ip c =? s_ip ss) then Some (s, 400, RErr, None)        (* CannotUseSessionCreatedByOtherIP *)
+          if negb (c_ip c =? s_ip ss) then Some (s, 400, RErr, None, None)  (* CannotUseSessionCreatedByOtherIP *)
           else sess_request g s c ss r
       | None =>
           if create then
@@ -689,24 +705,24 @@ Definition in_session (g : cfg) (s : server) (c : conn) (r : req) (create : bool
             let s1 := mkSrv (v_conns s) (ss :: v_sess s) (v_readers s) (v_active s) (v_mcount s) (v_mwriters s)
                             (v_rtp s) (v_rtcp s) (v_next s + 1) in
             sess_request g s1 c ss r
-          else Some (s, 454, RErr, None)                                    (* StatusSessionNotFound *)
+          else Some (s, 454, RErr, None, None)                              (* StatusSessionNotFound *)
       end
   | Some sid =>
       if match r_sess r with Some id => negb (id =? sid) | None => false end
-      then Some (s, 400, RErr, Some sid)                                    (* LinkedToOtherSession *)
+      then Some (s, 400, RErr, Some sid, None)                              (* LinkedToOtherSession *)
       else
         match find_sess sid (v_sess s) with
         | Some ss => sess_request g s c ss r
-        | None => Some (s, 400, RErr, Some sid)                             (* session terminated *)
+        | None => Some (s, 400, RErr, Some sid, None)                       (* session terminated *)
         end
   end.
 
 (* ServerConn.handleRequestInner *)
 Definition conn_request (g : cfg) (s : server) (c : conn) (r : req) : cres :=
-  if negb (r_cseq r) then Some (s, 400, RErr, c_sess c) else
-  if match r_method r with MOptions => false | _ => negb (r_url r) end then Some (s, 400, RErr, c_sess c) else
+  if negb (r_cseq r) then Some (s, 400, RErr, c_sess c, None) else
+  if match r_method r with MOptions => false | _ => negb (r_url r) end then Some (s, 400, RErr, c_sess c, None) else
   let has_sess := match r_sess r with Some _ => true | None => false end in
-  let plain st := Some (s, st, RNone, c_sess c) in
+  let plain st := Some (s, st, RNone, c_sess c, None) in
   match r_method r with
   | MOptions => if has_sess then in_session g s c r false else plain 200
   | MDescribe => if h_describe g then plain (if r_verdict r then 200 else 404) else plain 501
@@ -728,9 +744,9 @@ Definition conn_event (g : cfg) (s : server) (c : conn) (e : event) : option (se
   | EReq r =>
       match conn_request g s c r with
       | None => None
-      | Some (s1, st, err, sess') =>
+      | Some (s1, st, err, sess', adv) =>
           match find_conn (c_id c) (v_conns s1) with
-          | None => Some (s1, OResp st true)            (* the session closed this connection meanwhile *)
+          | None => Some (s1, OResp st true adv)        (* the session closed this connection meanwhile *)
           | Some c0 =>
               let c1 := mkConn (c_id c0) (c_ip c0) (c_tunnel c0) sess'
                                (match err with RSwitch t => t | _ => c_tcp c0 end) in
@@ -738,14 +754,14 @@ Definition conn_event (g : cfg) (s : server) (c : conn) (e : event) : option (se
               match err with
               | RErr => match close_conn s2 (c_id c) with
                         | None => None
-                        | Some s3 => Some (s3, OResp st true)
+                        | Some s3 => Some (s3, OResp st true adv)
                         end
               | RSwitch true =>
                   match sess' with
                   | None => None                         (* readFuncTCP: cr.sc.session.asyncStartWriter() *)
-                  | Some _ => Some (s2, OResp st false)
+                  | Some _ => Some (s2, OResp st false adv)
                   end
-              | _ => Some (s2, OResp st false)
+              | _ => Some (s2, OResp st false adv)
               end
           end
       end
@@ -846,13 +862,32 @@ Fixpoint get_transports (fuel : list N) (k : N) (l : list N) : option (list tran
       end
   end.
 
-(* request: method cseq url sess(opt) path verdict ctype sdp(opt) transports(0 | 1 k {transport})
+(* ---- events on the wire.  Session references are symbolic, because the implementation's ids are
+   random: 0 = no Session header, 1 x = the literal (unknown) id x, 2 = the id last advertised on this
+   connection, 3 k = the id last advertised on connection k.
+   1 ip tunnel | 2 conn 0 req | 2 conn 1 ch | 2 conn 2 | 2 conn 3 | 2 conn 4 | 3 = every armed
+   session timer fires | 5 = print the ledger *)
+Inductive wevent :=
+| WEv (e : sevent) (sref : N) (k : N)    (* sref: 0 = as decoded, 2 = own, 3 = connection k *)
+| WDrain
+| WSnap.
+
+Definition get_sref (l : list N) : option (N * N * option N * list N) :=   (* kind, k, literal, rest *)
+  match l with
+  | 0 :: t => Some (0, 0, None, t)
+  | 1 :: x :: t => Some (0, 0, Some x, t)
+  | 2 :: t => Some (2, 0, None, t)
+  | 3 :: k :: t => Some (3, k, None, t)
+  | _ => None
+  end.
+
+(* request: method cseq url sess(sref) path verdict ctype sdp(opt) transports(0 | 1 k {transport})
             keymgmt playurl(0 | 1 path trackkind trackn) recmedia(opt) udpwriteok *)
-Definition get_req (l : list N) : option (req * list N) :=
+Definition get_req (l : list N) : option (req * N * N * list N) :=
   match l with
   | m :: cs :: u :: t =>
-      match get_optn t with
-      | Some (sess, p :: v :: ct :: t1) =>
+      match get_sref t with
+      | Some (sk, skk, sess, p :: v :: ct :: t1) =>
           match get_optn t1 with
           | Some (sdp, t2) =>
               match (match t2 with
@@ -875,7 +910,7 @@ Definition get_req (l : list N) : option (req * list N) :=
                       | Some (rm, w :: t8) =>
                           Some (mkReq (dec_method m) (getb cs) (getb u) sess p (getb v)
                                       (match ct with 0 => CTMissing | 1 => CTOther | _ => CTSdp end)
-                                      sdp trs (getb km) pu rm (getb w), t8)
+                                      sdp trs (getb km) pu rm (getb w), sk, skk, t8)
                       | _ => None
                       end
                   | None => None
@@ -889,28 +924,31 @@ Definition get_req (l : list N) : option (req * list N) :=
   | _ => None
   end.
 
-(* event: 1 ip tunnel | 2 conn 0 req | 2 conn 1 ch | 2 conn 2 | 2 conn 3 | 2 conn 4 | 3 sid *)
-Definition get_sevent (l : list N) : option (sevent * list N) :=
+Definition get_wevent (l : list N) : option (wevent * list N) :=
   match l with
-  | 1 :: ip :: tu :: t => Some (SNew ip (getb tu), t)
-  | 2 :: c :: 0 :: t => match get_req t with Some (r, t') => Some (SConn c (EReq r), t') | None => None end
-  | 2 :: c :: 1 :: ch :: t => Some (SConn c (EFrame ch), t)
-  | 2 :: c :: 2 :: t => Some (SConn c EResponse, t)
-  | 2 :: c :: 3 :: t => Some (SConn c EGarbage, t)
-  | 2 :: c :: 4 :: t => Some (SConn c EClose, t)
-  | 3 :: sid :: t => Some (STimeout sid, t)
+  | 1 :: ip :: tu :: t => Some (WEv (SNew ip (getb tu)) 0 0, t)
+  | 2 :: c :: 0 :: t => match get_req t with
+                        | Some (r, sk, k, t') => Some (WEv (SConn c (EReq r)) sk k, t')
+                        | None => None
+                        end
+  | 2 :: c :: 1 :: ch :: t => Some (WEv (SConn c (EFrame ch)) 0 0, t)
+  | 2 :: c :: 2 :: t => Some (WEv (SConn c EResponse) 0 0, t)
+  | 2 :: c :: 3 :: t => Some (WEv (SConn c EGarbage) 0 0, t)
+  | 2 :: c :: 4 :: t => Some (WEv (SConn c EClose) 0 0, t)
+  | 3 :: t => Some (WDrain, t)
+  | 5 :: t => Some (WSnap, t)
   | _ => None
   end.
 
-Fixpoint get_sevents (fuel : list N) (l : list N) : option (list sevent) :=
+Fixpoint get_wevents (fuel : list N) (l : list N) : option (list wevent) :=
   match l with
   | [] => Some []
   | _ =>
     match fuel with
     | [] => None
     | _ :: f =>
-        match get_sevent l with
-        | Some (e, r) => option_map (cons e) (get_sevents f r)
+        match get_wevent l with
+        | Some (e, r) => option_map (cons e) (get_wevents f r)
         | None => None
         end
     end
@@ -926,29 +964,74 @@ Definition get_cfg (l : list N) : option (cfg * list N) :=
 
 Definition put_outcome (o : outcome) : list N :=
   match o with
-  | OResp st cl => [1; st; putb cl]
+  | OResp st cl adv => [1; st; putb cl; match adv with Some _ => 1 | None => 0 end]
   | OClosed => [2]
   | OIgnored => [3]
   end.
 
-(* the ledger as the harness can measure it: #conns #sessions #readers #active mcount mwriters #rtp #rtcp *)
+(* the ledger as the harness can measure it: #conns #sessions #readers #active mcount #rtp #rtcp *)
 Definition put_ledger (s : server) : list N :=
   [nlen (v_conns s); nlen (v_sess s); nlen (v_readers s); nlen (v_active s); v_mcount s;
-   putb (v_mwriters s); nlen (v_rtp s); nlen (v_rtcp s)].
+   nlen (v_rtp s); nlen (v_rtcp s)].
 
-(* case 1: cfg events...      -> outcome of every event, then 9, then the ledger
-   (77 = a step panicked) *)
+Fixpoint lookup_adv (c : N) (l : list (N * N)) : option N :=
+  match l with [] => None | (k, v) :: t => if k =? c then Some v else lookup_adv c t end.
+
+Definition resolve (advs : list (N * N)) (e : sevent) (sref k : N) : sevent :=
+  match e with
+  | SConn c (EReq r) =>
+      let sess := match sref with
+                  | 2 => lookup_adv c advs
+                  | 3 => lookup_adv k advs
+                  | _ => r_sess r
+                  end in
+      SConn c (EReq (mkReq (r_method r) (r_cseq r) (r_url r) sess (r_path r) (r_verdict r) (r_ctype r) (r_sdp r)
+                           (r_transports r) (r_keymgmt r) (r_play_url r) (r_rec_media r) (r_udp_write_ok r)))
+  | _ => e
+  end.
+
+(* every armed timer fires (sessions are visited in table order) *)
+Fixpoint drain (g : cfg) (s : server) (sl : list session) : option server :=
+  match sl with
+  | [] => Some s
+  | x :: t =>
+      match step g s (STimeout (s_id x)) with
+      | None => None
+      | Some (s1, _) => drain g s1 t
+      end
+  end.
+
+Fixpoint run_wire (g : cfg) (s : server) (advs : list (N * N)) (evs : list wevent) : list N :=
+  match evs with
+  | [] => []
+  | WSnap :: t => 9 :: put_ledger s ++ run_wire g s advs t
+  | WDrain :: t =>
+      match drain g s (v_sess s) with
+      | None => [77]
+      | Some s1 => run_wire g s1 advs t
+      end
+  | WEv e sref k :: t =>
+      let e' := resolve advs e sref k in
+      match step g s e' with
+      | None => [77]
+      | Some (s1, o) =>
+          let advs' := match e', o with
+                       | SConn c _, OResp _ _ (Some id) => (c, id) :: advs
+                       | _, _ => advs
+                       end in
+          put_outcome o ++ run_wire g s1 advs' t
+      end
+  end.
+
+(* case 1: cfg events...  -> the outcome of every event (1 status closes advertised | 2 | 3), the
+   ledger where asked (9 ...); 77 = a step panicked *)
 Definition run (c : list N) : list N :=
   match c with
   | 1 :: t =>
       match get_cfg t with
       | Some (g, t1) =>
-          match get_sevents t1 t1 with
-          | Some evs =>
-              match run_events g srv0 evs with
-              | Some (s, os) => concat (map put_outcome os) ++ 9 :: put_ledger s
-              | None => [77]
-              end
+          match get_wevents t1 t1 with
+          | Some evs => run_wire g srv0 [] evs
           | None => bad_case
           end
       | None => bad_case
